@@ -113,6 +113,19 @@ func goTypeOf(e ast.Expr) gty {
 	if ty, ok := namedTypes[exprString(e)]; ok {
 		return ty
 	}
+	switch exprString(e) {
+	case "TemplateMapper":
+		return tTMapper
+	case "PacketMapper":
+		return tPMapper
+	case "MappableField":
+		return tMapField
+	}
+	if at, ok := e.(*ast.ArrayType); ok && at.Len == nil {
+		if el := goTypeOf(at.Elt); isStruct(el) {
+			return gty("list:" + string(el))
+		}
+	}
 	return tBad
 }
 
@@ -175,6 +188,19 @@ func leanTy(t gty) string {
 	if isStruct(t) {
 		return strings.TrimPrefix(string(t), "struct:")
 	}
+	if isStructList(t) {
+		return "List " + strings.TrimPrefix(string(t), "list:struct:")
+	}
+	switch t {
+	case tAny:
+		return "Go.Any"
+	case tTMapper:
+		return "Go.TemplateMapper"
+	case tPMapper:
+		return "Go.PacketMapper"
+	case tMapField:
+		return "MapField"
+	}
 	return "extract_problem_type"
 }
 
@@ -205,6 +231,9 @@ func elemOf(t gty) gty {
 		return tBytes
 	case tLString:
 		return tString
+	}
+	if isStructList(t) {
+		return gty(strings.TrimPrefix(string(t), "list:"))
 	}
 	return tBad
 }
@@ -276,7 +305,9 @@ type sliceEvent struct {
 }
 
 func (t *tr) event(kind, name string, pos token.Pos) {
-	t.sliceEv = append(t.sliceEv, sliceEvent{kind, t.bindID[name], name, pos, t.inLoop > 0, t.depth == 0 && t.inLoop == 0})
+	id := t.bindID[name]
+	// "in a loop" is relative to the declaration: a variable declared in the body is new in every iteration
+	t.sliceEv = append(t.sliceEv, sliceEvent{kind, id, name, pos, t.inLoop > t.bindLoop[id], t.depth == 0 && t.inLoop == 0})
 }
 
 // checkSlices: every store must go to a binding that only ever held make() results, and no use that hands the
@@ -284,6 +315,20 @@ func (t *tr) event(kind, name string, pos token.Pos) {
 // unless an unconditional fresh make() lies between the two
 func (t *tr) checkSlices() bool {
 	ok := true
+	if t.fieldStores {
+		// a store through a message column is seen through every local that shares the slice: no mention after the sharing
+		for _, fe := range t.sliceEv {
+			if fe.kind != "fieldEscape" {
+				continue
+			}
+			for _, e := range t.sliceEv {
+				if e.id == fe.id && e.kind != "fieldEscape" && e.kind != "make" && e.pos > fe.pos {
+					t.fail(nil, "%s is mentioned after it was stored in the message, and the function stores through message columns (aliasing)", fe.name)
+					ok = false
+				}
+			}
+		}
+	}
 	for _, st := range t.sliceEv {
 		if st.kind != "store" {
 			continue
@@ -361,6 +406,7 @@ type tr struct {
 	// stores through an index are allowed into local slices that only ever hold the result of make() and that
 	// nothing else can refer to at the time of the store; checked at the end of the function over these events
 	bindID   map[string]int // current binding of a name -> id of its declaration
+	bindLoop map[int]int    // loop nesting at the declaration
 	nextID   int
 	sliceEv  []sliceEvent
 	depth    int            // nesting inside branches (0: executed unconditionally)
@@ -369,8 +415,17 @@ type tr struct {
 	ptrCell  map[string]string
 	gen      bool // declaring a generated name
 	ranges   int
-	imports  map[string]string
-	consts   map[string]val // typed constants of imported packages, by qualified name
+
+	refParams   map[string]bool // parameters of pointer type: the variable holds the pointee
+	fieldStores bool            // the function stores through an index of a message column
+	refOrder    []string        // the pointer parameters in order
+	ctlLoop     bool            // inside a loop with three exits (forStmtCtl)
+	outline     bool            // every loop body (and every switch case ending a statement list) becomes a definition of its own
+	caseBlocks  map[*ast.BlockStmt]string
+	caseNames   map[string]int
+	curResTy    string // the type of the term being built (changes inside an outlined loop body)
+	imports     map[string]string
+	consts      map[string]val // typed constants of imported packages, by qualified name
 }
 
 func (t *tr) fail(n ast.Node, f string, a ...interface{}) string {
@@ -403,6 +458,7 @@ func (t *tr) declare(n ast.Node, name string, ty gty) {
 	if t.bindID != nil {
 		t.nextID++
 		t.bindID[name] = t.nextID
+		t.bindLoop[t.nextID] = t.inLoop
 	}
 	if !t.gen && (name == "fuel" || strings.HasPrefix(name, "t_") || strings.HasPrefix(name, "k_") || strings.HasPrefix(name, "rng_") || strings.HasPrefix(name, "rlen_")) {
 		t.fail(n, "identifier %s collides with a generated name", name)
@@ -539,6 +595,12 @@ func (t *tr) expr(e ast.Expr) val {
 				return t.failV(x, "string literal %s", x.Value)
 			}
 			return val{code: leanStr(s), ty: tString}
+		case token.FLOAT:
+			// 1e6: an untyped constant that is an integer
+			c := constant.ToInt(constant.MakeFromLiteral(x.Value, token.FLOAT, 0))
+			if c.Kind() == constant.Int {
+				return val{code: c.ExactString(), ty: tUntyped, cst: c}
+			}
 		}
 		return t.failV(x, "literal %s of kind %s", x.Value, x.Kind)
 	case *ast.Ident:
@@ -551,11 +613,14 @@ func (t *tr) expr(e ast.Expr) val {
 			return val{code: "none", ty: tNil}
 		}
 		if ty, ok := t.lookup(x.Name); ok {
-			if ty == tBytes && t.noEscape == 0 {
+			if (ty == tBytes || ty == tLU32) && t.noEscape == 0 {
 				// the slice value is handed on: from here on a store through it could be seen elsewhere
 				t.event("escape", x.Name, x.Pos())
 			}
-			if isPtr(ty) {
+			if ty == tBytes || ty == tLU32 {
+				t.event("use", x.Name, x.Pos())
+			}
+			if isPtr(ty) || t.refParams[x.Name] {
 				return t.failV(x, "pointer %s used as a value", x.Name)
 			}
 			return val{code: leanIdent(x.Name), ty: ty}
@@ -570,6 +635,10 @@ func (t *tr) expr(e ast.Expr) val {
 		t.noEscape++
 		base := t.expr(x.X)
 		t.noEscape--
+		if isStructList(base.ty) && !intMode {
+			i := t.as(x.Index, t.expr(x.Index), tInt)
+			return val{code: t.bind("Go.idxL " + base.code + " " + i), ty: elemOf(base.ty)}
+		}
 		if base.ty != tBytes {
 			return t.failV(x, "index into %s (only []byte)", base.ty)
 		}
@@ -616,7 +685,17 @@ func (t *tr) expr(e ast.Expr) val {
 			// the values kept in the sync.Maps are ParserInfo by construction (Register* store nothing else)
 			return v
 		}
+		if x.Type != nil && goTypeOf(x.Type) == tBytes && v.ty == tAny {
+			// panics when the dynamic type is not []byte
+			return val{code: t.bind("Go.assertBytes " + v.code), ty: tBytes}
+		}
 		return t.failV(x, "type assertion %s", exprString(x))
+	case *ast.StarExpr:
+		if id, ok := x.X.(*ast.Ident); ok && t.refParams[id.Name] {
+			ty, _ := t.lookup(id.Name)
+			return val{code: leanIdent(id.Name), ty: ty}
+		}
+		return t.failV(x, "dereference %s", exprString(x))
 	case *ast.UnaryExpr:
 		return t.unary(x)
 	case *ast.BinaryExpr:
@@ -738,12 +817,17 @@ func (t *tr) binary(x *ast.BinaryExpr) val {
 		a := t.expr(x.X)
 		n := len(t.pre)
 		b := t.expr(x.Y)
-		if len(t.pre) != n {
-			// the right operand of && / || is evaluated conditionally: hoisting its index would invent a panic
-			return t.failV(x.Y, "partial operation (index / slice / read) under the right operand of %s", x.Op)
-		}
 		if a.ty != tBool || b.ty != tBool {
 			return t.failV(x, "%s on %s and %s", x.Op, a.ty, b.ty)
+		}
+		if len(t.pre) != n {
+			// the right operand of && / || is evaluated conditionally: its partial operations stay under the left operand
+			rhs := strings.Join(append(append([]string{}, t.pre[n:]...), "(.ok "+b.code+" : Res Bool)"), " ")
+			t.pre = t.pre[:n]
+			if x.Op == token.LAND {
+				return val{code: t.bind("(if " + a.code + " then " + rhs + " else .ok false)"), ty: tBool}
+			}
+			return val{code: t.bind("(if " + a.code + " then .ok true else " + rhs + ")"), ty: tBool}
 		}
 		op := "&&"
 		if x.Op == token.LOR {
@@ -765,6 +849,8 @@ func (t *tr) binary(x *ast.BinaryExpr) val {
 			switch a.ty {
 			case tEnv:
 				c = "(Go.envIsNil " + a.code + ")"
+			case tTMapper, tPMapper:
+				c = "(" + a.code + ").isNone"
 			case tError:
 				c = "(" + a.code + ").isNone"
 			default:
@@ -1070,8 +1156,12 @@ func (t *tr) call(x *ast.CallExpr) val {
 		}
 		return val{code: v.code + ".length", ty: tInt}
 	case "make":
+		if len(x.Args) == 2 && goTypeOf(x.Args[0]) == tLU32 && !intMode {
+			n := t.as(x.Args[1], t.expr(x.Args[1]), tInt)
+			return val{code: t.bind("Go.makeU32s " + n), ty: tLU32}
+		}
 		if len(x.Args) != 2 || goTypeOf(x.Args[0]) != tBytes {
-			return t.failV(x, "make other than make([]byte, n)")
+			return t.failV(x, "make other than make([]byte, n) / make([]uint32, n)")
 		}
 		n := t.as(x.Args[1], t.expr(x.Args[1]), tInt)
 		return val{code: t.bind("Go.makeBytes" + iSuffix() + " " + n), ty: tBytes}
@@ -1134,6 +1224,22 @@ func (t *tr) call(x *ast.CallExpr) val {
 			}
 		}
 	}
+	// a translated function with one result (pure, but it may panic or run out of fuel: a bind)
+	if id, ok := x.Fun.(*ast.Ident); ok {
+		if sig, ok := translatedSigs[id.Name]; ok && sig.kind == "tuple" && len(sig.results) == 1 && len(sig.params) == len(x.Args) {
+			name := leanIdent(id.Name)
+			if sig.lean != "" {
+				name = sig.lean
+			}
+			parts := []string{name}
+			t.noEscape++
+			for i, a := range x.Args {
+				parts = append(parts, t.as(a, t.expr(a), sig.params[i]))
+			}
+			t.noEscape--
+			return val{code: t.bind(strings.Join(parts, " ")), ty: sig.results[0]}
+		}
+	}
 	return t.failV(x, "call of %s in an expression", fn)
 }
 
@@ -1144,6 +1250,18 @@ func (t *tr) call2(x *ast.CallExpr) (string, bool, [2]gty, bool) {
 	if !ok {
 		t.fail(x, "two-valued call of %s", exprString(x.Fun))
 		return "", false, none, false
+	}
+	// mapper.Map(df): the lookup in the configured mapping, a prelude external (panics on the nil interface)
+	if id, ok := se.X.(*ast.Ident); ok {
+		if ty, _ := t.lookup(id.Name); ty == tTMapper && se.Sel.Name == "Map" && len(x.Args) == 1 {
+			a := t.expr(x.Args[0])
+			if a.ty != gty("struct:DataField") {
+				t.fail(x, "Map of %s", a.ty)
+				return "", false, none, false
+			}
+			code := "Go.mapperMap " + leanIdent(id.Name) + " " + a.code + ".PenProvided " + a.code + ".Pen " + a.code + ".Type"
+			return code, true, [2]gty{tMapField, tBool}, true
+		}
 	}
 	// pc.Environment.NextParserXxx(…)
 	if inner, ok := se.X.(*ast.SelectorExpr); ok {
@@ -1210,6 +1328,8 @@ type fnSig struct {
 	params  []gty
 	results []gty
 	kind    string
+	lean    string // Lean name when it is not the Go name (prelude externals)
+	refs    []int  // indices of the pointer parameters of a "ptrs" function
 }
 
 var translatedSigs = map[string]fnSig{}
@@ -1230,7 +1350,7 @@ func (t *tr) assignTo(lhs ast.Expr, v val, define bool) []string {
 			if ty == tUntyped {
 				ty = tInt
 			}
-			if _, ok := zeroOf(ty); !ok && ty != tBad {
+			if _, ok := zeroOf(ty); !ok && ty != tBad && !isStruct(ty) && ty != tMapField {
 				t.fail(l, "local variable of type %s", ty)
 			}
 			code := t.as(l, v, ty)
@@ -1292,6 +1412,13 @@ func (t *tr) assignTo(lhs ast.Expr, v val, define bool) []string {
 		if !ok || define {
 			return []string{t.fail(l, "assignment target %s", exprString(l))}
 		}
+		if t.refParams[id.Name] {
+			ty, _ := t.lookup(id.Name)
+			if v.ty == tBytes || v.ty == tLU32 {
+				// *p = v hands v on
+			}
+			return []string{"let " + leanIdent(id.Name) + " : " + leanTy(ty) + " := " + t.as(l, v, ty)}
+		}
 		el, ok := t.ptrOf[id.Name]
 		if !ok {
 			return []string{t.fail(l, "store through %s, which is not a type-switch binding", id.Name)}
@@ -1301,6 +1428,20 @@ func (t *tr) assignTo(lhs ast.Expr, v val, define bool) []string {
 	case *ast.IndexExpr:
 		if define {
 			return []string{t.fail(l, "assignment target %s", exprString(l))}
+		}
+		if se, ok := l.X.(*ast.SelectorExpr); ok {
+			// flowMessage.F[i] = v on a []uint32 column: the message owns its slices
+			if id, ok := se.X.(*ast.Ident); ok {
+				if bty, _ := t.lookup(id.Name); bty == tMsg && t.msgKind[se.Sel.Name] == "listU32" && !intMode {
+					m := leanIdent(id.Name)
+					f := lowerFirst(se.Sel.Name)
+					i := t.as(l.Index, t.expr(l.Index), tInt)
+					r := t.bind("Go.setIdxNat " + m + "." + f + " " + i + " (" + t.as(l, v, tU32) + " : UInt32).toNat")
+					out := t.flush()
+					t.fieldStores = true
+					return append(out, "let "+m+" : FlowMsg := { "+m+" with "+f+" := "+r+" }")
+				}
+			}
 		}
 		return t.indexStore(l, v)
 	}
@@ -1315,7 +1456,7 @@ func (t *tr) storable(n ast.Node, e ast.Expr) (string, bool) {
 		return "", false
 	}
 	ty, _ := t.lookup(id.Name)
-	if ty != tBytes {
+	if ty != tBytes && ty != tLU32 {
 		t.fail(n, "store into %s of type %s", id.Name, ty)
 		return "", false
 	}
@@ -1360,6 +1501,22 @@ func (t *tr) simple(s ast.Stmt) []string {
 			return []string{t.fail(x, "assignment operator %s", x.Tok)}
 		}
 		define := x.Tok == token.DEFINE
+		if ta, ok := x.Rhs[0].(*ast.TypeAssertExpr); ok && len(x.Lhs) == 2 && len(x.Rhs) == 1 {
+			// v, ok := x.([]byte): the zero value and false when the dynamic type is something else
+			src := t.expr(ta.X)
+			if ta.Type == nil || goTypeOf(ta.Type) != tBytes || src.ty != tAny {
+				return []string{t.fail(x, "comma-ok assertion %s", exprString(ta))}
+			}
+			out = append(out, t.flush()...)
+			r := t.fresh()
+			out = append(out, "let "+r+" : Go.Any := "+src.code)
+			out = append(out, t.assignTo(x.Lhs[0], val{code: "(Go.anyBytes " + r + ")", ty: tBytes}, define)...)
+			out = append(out, t.assignTo(x.Lhs[1], val{code: "(Go.anyIsBytes " + r + ")", ty: tBool}, define)...)
+			if id, ok := x.Lhs[0].(*ast.Ident); ok && id.Name != "_" {
+				t.event("assign", id.Name, x.Pos())
+			}
+			return out
+		}
 		if len(x.Lhs) == 2 && len(x.Rhs) == 1 {
 			ce, ok := x.Rhs[0].(*ast.CallExpr)
 			if !ok {
@@ -1392,8 +1549,18 @@ func (t *tr) simple(s ast.Stmt) []string {
 		v := t.expr(x.Rhs[0])
 		out = append(out, t.flush()...)
 		out = append(out, t.assignTo(x.Lhs[0], v, define)...)
+		if rid, ok := x.Rhs[0].(*ast.Ident); ok && v.ty == tLU32 { // stores through a column exist for []uint32 columns only
+			if se, ok := x.Lhs[0].(*ast.SelectorExpr); ok {
+				if bid, ok := se.X.(*ast.Ident); ok {
+					if bty, _ := t.lookup(bid.Name); bty == tMsg {
+						// the message column and the local now share the slice
+						t.event("fieldEscape", rid.Name, x.End())
+					}
+				}
+			}
+		}
 		if id, ok := x.Lhs[0].(*ast.Ident); ok {
-			if ty, _ := t.lookup(id.Name); ty == tBytes {
+			if ty, _ := t.lookup(id.Name); ty == tBytes || ty == tLU32 {
 				if ce, ok := x.Rhs[0].(*ast.CallExpr); ok && exprString(ce.Fun) == "make" {
 					t.event("make", id.Name, x.Pos())
 				} else {
@@ -1457,10 +1624,14 @@ func (t *tr) simple(s ast.Stmt) []string {
 				if !ok {
 					return []string{"(extract_problem_untranslated)"}
 				}
+				dty, _ := t.lookup(dst)
 				t.noEscape++
-				src := t.as(ce.Args[1], t.expr(ce.Args[1]), tBytes)
+				src := t.as(ce.Args[1], t.expr(ce.Args[1]), dty)
 				t.noEscape--
 				out = append(out, t.flush()...)
+				if dty == tLU32 {
+					return append(out, "let "+leanIdent(dst)+" : List UInt32 := Go.copyList "+leanIdent(dst)+" "+src)
+				}
 				return append(out, "let "+leanIdent(dst)+" : Bytes := Go.copyBytes "+leanIdent(dst)+" "+src)
 			case "binary.BigEndian.PutUint16", "binary.BigEndian.PutUint32", "binary.BigEndian.PutUint64":
 				if len(ce.Args) != 2 {
@@ -1476,6 +1647,15 @@ func (t *tr) simple(s ast.Stmt) []string {
 				r := t.bind("Go.putU" + w + " " + leanIdent(dst) + " " + a)
 				out = append(out, t.flush()...)
 				return append(out, "let "+leanIdent(dst)+" : Bytes := "+r)
+			}
+		}
+		if ce, ok := x.X.(*ast.CallExpr); ok {
+			// a translated procedure writing through its pointer arguments
+			if id, ok := ce.Fun.(*ast.Ident); ok {
+				if sig, ok := translatedSigs[id.Name]; ok && sig.kind == "ptrs" {
+					lines, _ := t.effectCall(ce)
+					return lines
+				}
 			}
 		}
 		return []string{t.fail(x, "expression statement %s", exprString(x.X))}
@@ -1521,6 +1701,9 @@ func baseName(e ast.Expr) string {
 	return ""
 }
 
+// the pointer-typed parameters of the function being translated (its message, its destination cell)
+var pointerVars = map[string]bool{}
+
 func assignedNames(nodes []ast.Node) map[string]bool {
 	out := map[string]bool{}
 	for _, n := range nodes {
@@ -1532,6 +1715,18 @@ func assignedNames(nodes []ast.Node) map[string]bool {
 			case *ast.AssignStmt:
 				for _, l := range x.Lhs {
 					out[baseName(l)] = true
+				}
+			case *ast.UnaryExpr:
+				// &x handed to a call: the callee may write x
+				if x.Op == token.AND {
+					out[baseName(x.X)] = true
+				}
+			case *ast.CallExpr:
+				// the message / the destination cell handed to a call: the callee may write through the pointer
+				for _, a := range x.Args {
+					if id, ok := a.(*ast.Ident); ok && pointerVars[id.Name] {
+						out[id.Name] = true
+					}
 				}
 			case *ast.IncDecStmt:
 				out[baseName(x.X)] = true
@@ -1664,7 +1859,11 @@ func (t *tr) block(list []ast.Stmt, k konts) []string {
 		case *ast.TypeSwitchStmt:
 			return append(out, t.typeSwitch(x, rest, k)...)
 		case *ast.ForStmt:
-			out = append(out, t.forStmt(x, "")...)
+			if t.outline || containsReturn(x.Body.List) {
+				out = append(out, t.forStmtCtl(x, "")...)
+			} else {
+				out = append(out, t.forStmt(x, "")...)
+			}
 		case *ast.RangeStmt:
 			out = append(out, t.rangeStmt(x)...)
 		default:
@@ -1679,11 +1878,29 @@ func (t *tr) block(list []ast.Stmt, k konts) []string {
 
 func (t *tr) ret(x *ast.ReturnStmt) []string {
 	if t.inLoop > 0 {
+		if t.ctlLoop {
+			return t.retCtl(x)
+		}
 		return []string{t.fail(x, "return inside a loop")}
 	}
 	var out []string
 	var vals []string
 	switch t.retKind {
+	case "msgerr":
+		if len(x.Results) != 1 {
+			return []string{t.fail(x, "return arity")}
+		}
+		if exprString(x.Results[0]) == "nil" {
+			return []string{".ok " + leanIdent(t.msgVar)}
+		}
+		e := t.as(x.Results[0], t.expr(x.Results[0]), tError)
+		out = append(out, t.flush()...)
+		return append(out, "Go.retMsg "+leanIdent(t.msgVar)+" "+e)
+	case "ptrs":
+		if len(x.Results) != 0 {
+			return []string{t.fail(x, "return arity")}
+		}
+		return t.ptrsResult()
 	case "msg":
 		if len(x.Results) != 0 {
 			return []string{t.fail(x, "return arity")}
@@ -1744,6 +1961,12 @@ func (t *tr) ifStmt(x *ast.IfStmt, rest []ast.Stmt, k konts) []string {
 	mark := len(t.env)
 	defer func() { t.env = t.env[:mark] }()
 	var out []string
+	if ce, ok := isTry(x); ok && (t.retKind == "msgerr" || t.retKind == "cell") {
+		// if err := f(…); err != nil { return err }: the error of f is the error of this function
+		lines, _ := t.effectCall(ce)
+		out = append(out, lines...)
+		return append(out, t.block(rest, k)...)
+	}
 	if x.Init != nil {
 		out = append(out, t.simple(x.Init)...)
 	}
@@ -1770,7 +1993,11 @@ func (t *tr) ifStmt(x *ast.IfStmt, rest []ast.Stmt, k konts) []string {
 	emit := func(thenK, elseK konts, elseBody []ast.Stmt) {
 		out = append(out, "if "+c.code+" then")
 		t.depth++
-		out = append(out, indent(t.block(x.Body.List, thenK), "  ")...)
+		thenLines := t.block(x.Body.List, thenK)
+		if name, ok := t.caseBlocks[x.Body]; ok && len(rest) == 0 {
+			thenLines = t.outlineDef(name, mark, thenLines)
+		}
+		out = append(out, indent(thenLines, "  ")...)
 		t.depth--
 		out = append(out, "else")
 		// the statements after an `if … { return }` are not nested, a real else branch is
@@ -1832,8 +2059,15 @@ func (t *tr) switchToIf(x *ast.SwitchStmt) (*ast.IfStmt, bool) {
 		return nil, false
 	}
 	if x.Tag != nil {
-		if _, ok := x.Tag.(*ast.Ident); !ok {
-			t.fail(x, "switch on a non-identifier tag")
+		ok := false
+		switch tg := x.Tag.(type) {
+		case *ast.Ident:
+			ok = true
+		case *ast.SelectorExpr:
+			_, ok = tg.X.(*ast.Ident) // a field of a variable: evaluating it again for every case changes nothing
+		}
+		if !ok {
+			t.fail(x, "switch on a tag that is neither a variable nor a field")
 			return nil, false
 		}
 	}
@@ -1871,7 +2105,22 @@ func (t *tr) switchToIf(x *ast.SwitchStmt) (*ast.IfStmt, bool) {
 				cond = &ast.BinaryExpr{X: cond, Op: token.LOR, Y: one, OpPos: e.Pos()}
 			}
 		}
-		tail = &ast.IfStmt{If: cc.Pos(), Cond: cond, Body: &ast.BlockStmt{Lbrace: cc.Pos(), List: cc.Body}, Else: tail}
+		body := &ast.BlockStmt{Lbrace: cc.Pos(), List: cc.Body}
+		if t.outline && t.caseBlocks != nil {
+			// the body of a case becomes a definition of its own, named after the (first) case value
+			name := "case"
+			for _, e := range cc.List {
+				v := t.expr(e)
+				if v.ty == tUntyped && v.cst != nil {
+					name += "_" + v.cst.ExactString()
+				} else {
+					name += "_x"
+				}
+				t.pre = nil
+			}
+			t.caseBlocks[body] = name
+		}
+		tail = &ast.IfStmt{If: cc.Pos(), Cond: cond, Body: body, Else: tail}
 	}
 	if tail == nil {
 		return nil, true
@@ -1982,8 +2231,17 @@ func (t *tr) typeSwitch(x *ast.TypeSwitchStmt, rest []ast.Stmt, k konts) []strin
 
 // for i := range x { body }: x is evaluated once; the hidden counter cannot be written by the body
 func (t *tr) rangeStmt(x *ast.RangeStmt) []string {
+	valName := ""
 	if x.Value != nil {
-		return []string{t.fail(x, "range with a value variable")}
+		vid, ok := x.Value.(*ast.Ident)
+		xid, ok2 := x.X.(*ast.Ident)
+		if !ok || !ok2 || x.Tok != token.DEFINE {
+			return []string{t.fail(x, "range with a value variable over something that is not a variable")}
+		}
+		if assignedNames([]ast.Node{x.Body})[xid.Name] {
+			return []string{t.fail(x, "the ranged slice is assigned in the loop")}
+		}
+		valName = vid.Name
 	}
 	key := ""
 	if x.Key != nil {
@@ -2007,6 +2265,11 @@ func (t *tr) rangeStmt(x *ast.RangeStmt) []string {
 	out = append(out, t.assignTo(ast.NewIdent(cName), val{code: "0", ty: tUntyped, cst: constant.MakeInt64(0)}, true)...)
 	t.gen = false
 	body := x.Body.List
+	if valName != "" && valName != "_" {
+		// the element is read from the slice as it is at this iteration; the body does not assign the slice
+		body = append([]ast.Stmt{&ast.AssignStmt{Lhs: []ast.Expr{ast.NewIdent(valName)}, Tok: token.DEFINE,
+			Rhs: []ast.Expr{&ast.IndexExpr{X: x.X, Index: ast.NewIdent(cName)}}}}, body...)
+	}
 	if key != "" && key != "_" {
 		body = append([]ast.Stmt{&ast.AssignStmt{Lhs: []ast.Expr{ast.NewIdent(key)}, Tok: token.DEFINE, Rhs: []ast.Expr{ast.NewIdent(cName)}}}, body...)
 	}
@@ -2019,6 +2282,9 @@ func (t *tr) rangeStmt(x *ast.RangeStmt) []string {
 	fuel := "(" + nName + " + 1)"
 	if intMode {
 		fuel = "(" + nName + ".toNat + 1)"
+	}
+	if t.outline || containsReturn(x.Body.List) {
+		return append(out, t.forStmtCtl(fs, fuel)...)
 	}
 	return append(out, t.forStmt(fs, fuel)...)
 }
@@ -2140,9 +2406,11 @@ func (t *tr) function(fd *ast.FuncDecl) string {
 	t.tmp, t.joins, t.loops, t.inLoop = 0, 0, 0, 0
 	t.retTys, t.retVars = nil, nil
 	t.cellVar, t.msgVar = "", ""
-	t.bindID, t.nextID, t.sliceEv, t.depth = map[string]int{}, 0, nil, 0
+	t.bindID, t.nextID, t.sliceEv, t.depth, t.bindLoop = map[string]int{}, 0, nil, 0, map[int]int{}
 	t.ptrOf, t.ptrCell = map[string]gty{}, map[string]string{}
 	t.noEscape, t.ranges, t.gen = 0, 0, false
+	t.refParams, t.fieldStores, t.ctlLoop, t.refOrder = map[string]bool{}, false, false, nil
+	t.caseBlocks, t.caseNames, t.curResTy = map[*ast.BlockStmt]string{}, map[string]int{}, ""
 
 	var params []string
 	var sig fnSig
@@ -2155,10 +2423,22 @@ func (t *tr) function(fd *ast.FuncDecl) string {
 	}
 	for _, p := range fd.Type.Params.List {
 		ty := goTypeOf(p.Type)
+		isRef := false
+		if st, ok := p.Type.(*ast.StarExpr); ok && ty == tBad {
+			// p *[]byte, q *uint32: the variable holds the pointee, the function returns the pointees
+			if pt := goTypeOf(st.X); pt == tBytes || isUnsigned(pt) {
+				ty, isRef = pt, true
+			}
+		}
 		if ty == tBad {
 			t.fail(p, "parameter type %s", exprString(p.Type))
 		}
 		for _, nm := range p.Names {
+			if isRef {
+				t.refParams[nm.Name] = true
+				t.refOrder = append(t.refOrder, nm.Name)
+				sig.refs = append(sig.refs, len(sig.params))
+			}
 			t.declare(nm, nm.Name, ty)
 			params = append(params, "("+leanIdent(nm.Name)+" : "+leanTy(ty)+")")
 			sig.params = append(sig.params, ty)
@@ -2213,6 +2493,20 @@ func (t *tr) function(fd *ast.FuncDecl) string {
 		t.retKind = "msg"
 		resTy = "Res FlowMsg"
 		fall.fall = []string{".ok " + leanIdent(t.msgVar)}
+	} else if t.msgVar != "" && len(t.retTys) == 1 && t.retTys[0] == tError && !named && t.cellVar == "" {
+		// func(msg, …) error: the message, or the error
+		t.retKind = "msgerr"
+		resTy = "Res FlowMsg"
+	} else if len(t.refOrder) > 0 && len(t.retTys) == 0 && t.msgVar == "" && t.cellVar == "" {
+		// a procedure writing through its pointer parameters: the pointees are the result
+		t.retKind = "ptrs"
+		var tys []string
+		for _, r := range t.refOrder {
+			rt, _ := t.lookup(r)
+			tys = append(tys, leanTy(rt))
+		}
+		resTy = "Res (" + strings.Join(tys, " × ") + ")"
+		fall.fall = t.ptrsResult()
 	} else {
 		t.retKind = "tuple"
 		var tys []string
@@ -2226,8 +2520,19 @@ func (t *tr) function(fd *ast.FuncDecl) string {
 		if t.cellVar != "" {
 			t.fail(fd, "interface{} parameter in a function that does not return exactly `error`")
 		}
+		if len(t.refOrder) > 0 {
+			t.fail(fd, "pointer parameters in a function with results")
+		}
 	}
 	sig.kind = t.retKind
+	t.curResTy = resTy
+	pointerVars = map[string]bool{}
+	if t.msgVar != "" {
+		pointerVars[t.msgVar] = true
+	}
+	if t.cellVar != "" {
+		pointerVars[t.cellVar] = true
+	}
 	body := append(prologue, t.block(fd.Body.List, fall)...)
 	translatedSigs[fd.Name.Name] = sig
 
@@ -2245,6 +2550,62 @@ func (t *tr) function(fd *ast.FuncDecl) string {
 		fmt.Fprintf(&b, "\ndef %s_aliasing := extract_problem_untranslated\n", leanIdent(fd.Name.Name))
 	}
 	return b.String()
+}
+
+// mentions: does the Lean text use the identifier (as a whole word, not as a field name)?
+func mentions(text, id string) bool {
+	isIdent := func(c byte) bool {
+		return c == '_' || c == '\'' || c >= '0' && c <= '9' || c >= 'a' && c <= 'z' || c >= 'A' && c <= 'Z' || c >= 0x80
+	}
+	for i := 0; i+len(id) <= len(text); i++ {
+		if text[i:i+len(id)] != id {
+			continue
+		}
+		if i > 0 && (isIdent(text[i-1]) || text[i-1] == '.') {
+			continue
+		}
+		if j := i + len(id); j < len(text) && isIdent(text[j]) {
+			continue
+		}
+		return true
+	}
+	return false
+}
+
+// outlineDef: the lines become the body of a top-level definition over every variable in scope
+func (t *tr) outlineDef(name string, envLen int, lines []string) []string {
+	if t.curResTy == "" {
+		return lines
+	}
+	var params, args []string
+	text := strings.Join(lines, "\n")
+	for _, v := range t.env[:envLen] {
+		if !mentions(text, leanIdent(v.name)) {
+			continue
+		}
+		if isPtr(v.ty) || t.refParams[v.name] || v.ty == tEnv || v.ty == tBad {
+			return lines
+		}
+		params = append(params, "("+leanIdent(v.name)+" : "+leanTy(v.ty)+")")
+		args = append(args, leanIdent(v.name))
+	}
+	t.caseNames[name]++
+	if n := t.caseNames[name]; n > 1 {
+		name = fmt.Sprintf("%s_%d", name, n)
+	}
+	full := t.fn + "_" + name
+	def := []string{"def " + full + " " + strings.Join(params, " ") + " : " + t.curResTy + " :="}
+	def = append(def, indent(lines, "  ")...)
+	t.aux = append(t.aux, strings.Join(def, "\n"))
+	return []string{full + " " + strings.Join(args, " ")}
+}
+
+func (t *tr) ptrsResult() []string {
+	var vs []string
+	for _, r := range t.refOrder {
+		vs = append(vs, leanIdent(r))
+	}
+	return []string{".ok (" + strings.Join(vs, ", ") + ")"}
 }
 
 // the functions to translate, dispatchers first (a method may call an earlier one)
@@ -2414,10 +2775,13 @@ func translateStruct(rel, pkg, name string, b *strings.Builder) {
 		if id, ok := fl.Type.(*ast.Ident); ok && fty == tBad {
 			fty = local[id.Name]
 		}
-		if !isUnsigned(fty) {
+		if !isUnsigned(fty) && fty != tBool && fty != tCell {
 			problem("translate: struct %s: field type %s", name, exprString(fl.Type))
 			fmt.Fprintf(b, "  extract_problem_field : extract_problem_untranslated\n")
 			continue
+		}
+		if fty == tCell {
+			fty = tAny // an interface{} field holds a value, not a destination
 		}
 		for _, nm := range fl.Names {
 			fields = append(fields, fieldInfo{nm.Name, fty})
